@@ -96,8 +96,35 @@ func writeReplay(spec *h.Spec, res *h.Result, ev []h.Event, fatal string) string
 func watchdog() {
 	last := h.Progress.Load()
 	idle := 0
-	for {
-		time.Sleep(time.Second)
+	napIdle, napLast := 0, int64(-1)
+	for tick := 0; ; tick++ {
+		time.Sleep(100 * time.Millisecond)
+		// a "nap" (virtual time passing while a user-code call is held) that makes no progress
+		// for half a second of real time is frozen: the held call sits inside a critical section
+		// another goroutine wants. Abandon the scenario; nothing is concluded from it.
+		if h.NapActive.Load() > 0 {
+			if c := h.Progress.Load(); c == napLast {
+				napIdle++
+			} else {
+				napIdle, napLast = 0, c
+			}
+			if napIdle >= 5 {
+				current.Lock()
+				spec, k, busy := current.spec, current.k, current.busy
+				current.Unlock()
+				if busy {
+					res := &h.Result{Name: spec.Name, Class: spec.Class, Seed: spec.Seed, Obs: map[string]int{"abandoned.nap_frozen": 1}, FP: map[string]string{}}
+					res.Abandoned = "nap frozen: the held call sits inside a critical section that another goroutine wants (virtual clock cannot advance)"
+					emit(line{K: k, Result: res})
+					os.Exit(3)
+				}
+			}
+		} else {
+			napIdle, napLast = 0, -1
+		}
+		if tick%10 != 9 {
+			continue
+		}
 		cur := h.Progress.Load()
 		current.Lock()
 		busy := current.busy
@@ -185,6 +212,11 @@ func classifyStall(d1, d2 string) (string, string) {
 			// never ends. In real time this resolves itself: not a deadlock.
 			if strings.Contains(g, "time.Sleep") && strings.Contains(g, "verifharness/h.(*Runner).build.func") && strings.Contains(g, "NATS-Leader-Election/leader.") {
 				return "artifact", "callback sleeping on the virtual clock while a library lock is wanted (synctest limitation)"
+			}
+			// A user-code call held by the harness underneath library frames while virtual time
+			// is wanted elsewhere: same limitation (the release is scheduled on the virtual clock).
+			if strings.Contains(g, "verifharness/h.(*Client).atPhase") && strings.Contains(g, "NATS-Leader-Election/leader.") {
+				return "artifact", "user-code call held by the harness inside the library while the virtual clock is frozen (synctest limitation)"
 			}
 			hdr := g
 			if i := strings.IndexByte(g, '\n'); i >= 0 {
